@@ -222,6 +222,9 @@ def run_cli(ctx):
               b'cmd /c powershell -enc aABlAGwAbABvAA== && echo "a" + "b"',
               b"aGVsbG8gd29ybGQgaGVsbG8gd29ybGQgaGVsbG8gd29ybGQ=\r\n\xff\xfe binary \x00 tail",
               b"line1\nline2 CreateObject(\"WScript.Shell\") strlen\n"]
+    # byte-order marks, leading / trailing white space and line ends, NUL first: the CLI must scan EXACTLY the bytes it was given
+    script = b'$u = "http://example.com/a"; cmd /c echo hi\r\n'
+    inputs += [b"\xef\xbb\xbf" + script, b"\xff\xfe" + script, b"\r\n\r\n  " + script + b"  \n\n", b"\x00" + script, script.rstrip(b"\r\n"), b"\n", b" ", b"\xef\xbb\xbf"]
     for _ in range(ctx.budget(2, 12)):
         inputs.append(bytes(ctx.rng.choice(b"abc /:.@%41-\n\"'+&^()=0123456789") for _ in range(ctx.rng.randint(0, 120))))
     tmp = tempfile.mkdtemp(prefix="verif_c20_")
